@@ -627,6 +627,42 @@ pub fn run(run: &Run) {
     }
     run.assume("NaN results are compared by position (any non-poison NaN payload accepted); every other value bit for bit");
     run.assume("the harness computes the scalar reference with the same libm and hardware in the same build");
+    // products of runs of tiny and huge factors (exact powers of two): the product and every running product of the
+    // definition stay in range; a regrouped evaluation must not overflow or underflow on the way
+    for n in 2..=48usize {
+        for run_len in [1usize, 2, 4, 7, 8, 9, 16] {
+            for (lo, hi) in [(-120i32, 120i32), (-127, 130), (120, -120)] {
+                let mut x: Vec<f64> = (0..n).map(|i| if (i / run_len) % 2 == 0 { 2f64.powi(lo) } else { 2f64.powi(hi) }).collect();
+                // keep the running product within 2^+-1020: truncate at the first index where it would leave
+                let mut e = 0i32;
+                let mut keep = n;
+                for (i, v) in x.iter().enumerate() {
+                    e += v.log2() as i32;
+                    if e.abs() > 1020 {
+                        keep = i;
+                        break;
+                    }
+                }
+                x.truncate(keep);
+                if x.len() < 2 {
+                    continue;
+                }
+                let want = 2f64.powi(x.iter().map(|v| v.log2() as i32).sum::<i32>());
+                let vx = Vector::new(x.clone());
+                for (key, got) in [("prod(slice)", guard(|| linalg::prod(&x))), ("Vector.prod", guard(|| vx.prod()))] {
+                    run.case();
+                    run.tr();
+                    run.ok();
+                    run.nontrivial(1);
+                    match got {
+                        Ok(g) if g == want => run.regime("products-of-scaled-runs"),
+                        Ok(g) => run.violate(&format!("{}/runs-of-tiny-and-huge-factors", key), || format!("n={} runs of {} factors 2^{} / 2^{}: got {:e}, the product is {:e} (every running product is within 2^±1020)", x.len(), run_len, lo, hi, g, want)),
+                        Err(p) => run.violate(&format!("{}/panic", key), || format!("n={}: {}", x.len(), p)),
+                    }
+                }
+            }
+        }
+    }
     // sums and means with infinite entries: +inf (or -inf) anywhere among finite entries gives that infinity, both
     // signs give NaN (IEEE addition; the definition of the sum does not change because an entry is infinite)
     for n in 1..=20usize {
